@@ -59,7 +59,7 @@ def main():
     ok = meta.get('patch_applies') and meta.get('own_tests_pass_with_patch') and meta.get('demo_fails_with_patch') and meta.get('demo_passes_without_patch')
     meta['confirmed'] = bool(ok)
     checks = {}
-    if ok:
+    if ok and '--no-checks' not in sys.argv:
         props = [prop]
         if run_all:
             props += [f'C{i:02d}' for i in range(1, 17) if f'C{i:02d}' != prop]
